@@ -1,14 +1,13 @@
 #!/bin/sh
-# usage: tools/eval_seed.sh <ID> [tier]   -- confirms a sub-agent's seeded change in its scratch worktree /tmp/seed_<ID>
-# (patch applied there), then runs the property's check against that worktree.
+# usage: tools/eval_seed.sh <ID> [tier] [notests]  -- confirms a sub-agent's seeded change (/tmp/seed_out/<ID>/patch.diff) in its scratch
+# worktree /tmp/seed_<ID>, then runs the property's check against that worktree.  (No `git stash`: the stash is shared by all worktrees.)
 id=$1; tier=${2:-quick}; wt=/tmp/seed_$id; out=/tmp/seed_out/$id
 cd $wt || exit 9
-echo "--- $id: diff stat"; git diff --stat | tail -2
-git diff > /tmp/seed_out/$id/patch.confirmed.diff
-echo "--- demo on changed tree"; timeout 300 /venv/bin/python -W ignore $out/demo.py $wt > /tmp/seed_out/$id/demo_changed.log 2>&1; echo "exit=$?"; tail -2 /tmp/seed_out/$id/demo_changed.log | cut -c1-300
-git stash -q
-echo "--- demo on unchanged tree"; timeout 300 /venv/bin/python -W ignore $out/demo.py $wt > /tmp/seed_out/$id/demo_unchanged.log 2>&1; echo "exit=$?"; tail -1 /tmp/seed_out/$id/demo_unchanged.log | cut -c1-200
-git stash pop -q
+git checkout -q -- . && git clean -fdq
+echo "--- $id: demo on unchanged tree"; timeout 300 /venv/bin/python -W ignore $out/demo.py $wt > $out/demo_unchanged.log 2>&1; echo "exit=$?"; tail -1 $out/demo_unchanged.log | cut -c1-200
+git apply $out/patch.diff || { echo "PATCH DOES NOT APPLY"; exit 8; }
+git diff > $out/patch.confirmed.diff; git diff --stat | tail -1
+echo "--- demo on changed tree"; timeout 300 /venv/bin/python -W ignore $out/demo.py $wt > $out/demo_changed.log 2>&1; echo "exit=$?"; tail -2 $out/demo_changed.log | cut -c1-300
 if [ "$3" != "notests" ]; then
 echo "--- repository tests on changed tree"; /venv/bin/python -m pytest -q -p no:cacheprovider -n 6 --timeout=900 2>&1 | tail -1
 fi
